@@ -262,6 +262,72 @@ func (p c19) Run(c *core.Ctx, idx int) {
 			}
 		}
 	}
+	// documents that start at a whole list: one well-formed element holding one element per entry
+	var lsubs []dp.DPath
+	for _, ap := range t.AllPaths() {
+		if _, l, _ := t.Resolve(ap); l != nil && len(l.Entries) > 0 && plainKeys(ap) {
+			lsubs = append(lsubs, ap)
+		}
+	}
+	r.Shuffle(len(lsubs), func(i, j int) { lsubs[i], lsubs[j] = lsubs[j], lsubs[i] })
+	if len(lsubs) > 2 {
+		lsubs = lsubs[:2]
+	}
+	for _, sp := range lsubs {
+		_, ml, _ := t.Resolve(sp)
+		for _, w := range writers {
+			if w.name == "WriteXMLDoc-pretty" {
+				continue
+			}
+			c.Eval()
+			c.Shape("%s/below-root/list/depth%d", w.name, len(sp))
+			var out string
+			var err error
+			var sel *node.Selection
+			if c.Guard(w.name+" at a list", func() {
+				sel, err = dp.FindSel(b, sp)
+				if err == nil && sel != nil {
+					out, err = w.f(sel)
+				}
+			}) {
+				continue
+			}
+			if err != nil || sel == nil {
+				// refusing to write several entries as one document is an answer
+				c.Count("list_document_refused")
+				continue
+			}
+			dec := xml.NewDecoder(strings.NewReader(out))
+			depth, roots, entries := 0, 0, 0
+			var xerr error
+			for {
+				tok, e := dec.Token()
+				if e != nil {
+					if e != io.EOF {
+						xerr = e
+					}
+					break
+				}
+				switch x := tok.(type) {
+				case xml.StartElement:
+					if depth == 0 {
+						roots++
+					}
+					if depth == 1 && x.Name.Local == ml.S.Name {
+						entries++
+					}
+					depth++
+				case xml.EndElement:
+					depth--
+				}
+			}
+			if xerr != nil || roots != 1 || depth != 0 {
+				c.Violate("document/"+w.name+"/below-root/list/malformed", "%s on list %q: not one well-formed element (roots=%d, error=%v)\nxml: %s\n%s", w.name, dp.PathString(sp), roots, xerr, head(out, 1200), wit())
+			} else if entries != len(ml.Entries) {
+				c.Violate("document/"+w.name+"/below-root/list/entries", "%s on list %q: %d entry elements, the list has %d\nxml: %s\n%s", w.name, dp.PathString(sp), entries, len(ml.Entries), head(out, 1200), wit())
+			}
+		}
+	}
 	// interleavings of a reference document
 	for k := 0; k < 5; k++ {
 		c.Eval()
